@@ -79,6 +79,12 @@ func runConc(in concIn) (interface{}, error) {
 			marker := fmt.Sprintf("/g%dx", g)
 			var last concPair
 			for l := 0; l < in.L; l++ {
+				mu.Lock()
+				enough := out.Foreign+out.Panics >= 20 // the failure is established: do not flood the race log
+				mu.Unlock()
+				if enough {
+					break
+				}
 				target := fmt.Sprintf("%s/%d%%2F?g=%d", marker, l, g)
 				u, err := url.ParseRequestURI(target)
 				if err != nil {
